@@ -49,7 +49,7 @@ UpStart(d, ok) ==          \* StartRecording -> maybeStartRecording
              /\ ev' = [op |-> "start", dt |-> d, base |-> <<>>, nev |-> 1, err |-> FALSE]
   /\ UNCHANGED quirk
 
-UpWrite(d, ok) ==          \* WriteFrame
+UpWrite(d, ok, sok) ==     \* WriteFrame (sok: result of the storage StopRecording if the file is cut here)
   /\ upOpen /\ Pass(d)
   /\ LET a == Adj(d)
          restart == ~recording /\ a[1] >= MinLen
@@ -65,19 +65,20 @@ UpWrite(d, ok) ==          \* WriteFrame
                    THEN /\ avail' = a[1] - 1 /\ recording' = TRUE
                         /\ ev' = [op |-> "w", dt |-> d, base |-> pre \o <<BCall("w", TRUE)>>, nev |-> 0, err |-> FALSE]
                    ELSE /\ avail' = a[1] /\ recording' = FALSE
-                        /\ ev' = [op |-> "w", dt |-> d, base |-> pre \o <<BCall("stop", TRUE)>>, nev |-> 1, err |-> FALSE]
+                        /\ ev' = [op |-> "w", dt |-> d, base |-> pre \o <<BCall("stop", sok)>>, nev |-> 1, err |-> ~sok]
   /\ UNCHANGED <<quirk, upOpen>>
 
-UpStop(d) ==
+UpStop(d, sok) ==          \* StopRecording: the file is over whether or not storage reports an error
   /\ upOpen /\ Pass(d)
   /\ behind' = SMin(Cap + 1, behind + ((phase + d) \div K))
-  /\ ev' = [op |-> "stop", dt |-> d, base |-> (IF recording THEN <<BCall("stop", TRUE)>> ELSE <<>>), nev |-> 0, err |-> FALSE]
+  /\ ev' = [op |-> "stop", dt |-> d, base |-> (IF recording THEN <<BCall("stop", sok)>> ELSE <<>>), nev |-> 0,
+            err |-> (recording /\ ~sok)]
   /\ recording' = FALSE /\ upOpen' = FALSE
   /\ UNCHANGED <<quirk, avail>>
 
 Next == \E d \in Steps : \/ \E ok \in BOOLEAN : UpStart(d, ok)
-                         \/ \E ok \in (IF recording THEN {TRUE} ELSE BOOLEAN) : UpWrite(d, ok)
-                         \/ UpStop(d)
+                         \/ \E ok \in (IF recording THEN {TRUE} ELSE BOOLEAN), sok \in BOOLEAN : UpWrite(d, ok, sok)
+                         \/ \E sok \in (IF recording THEN BOOLEAN ELSE {TRUE}) : UpStop(d, sok)
 
 TypeOK == avail \in 0..Cap /\ behind \in 0..(Cap + 1) /\ phase \in 0..(K - 1)
 =============================================================================
